@@ -106,7 +106,72 @@ let do_pool pa sT aT s opsl =
     let toks = [geom_tok g] @ List.map obs_str obs @
                (if pa then [] else [Printf.sprintf "P%d" (List.length rel + 1)]) @
                [Printf.sprintf "D%s:%s" (dec_of_n nb) (String.concat "." (List.map (fun c -> string_of_int (int_of_nat c)) rel))] in
-    String.concat " " toks, pool_oracle ~pr:(not pa) sT aT ops toks
+    (* the literal intrusive free list (arbitrary initial memory, the client scribbles over its blocks) must agree: C15_pool_refines *)
+    let junk (b : c15_slot) = Some (S (S (S (fst b))), N.add (snd b) (n_of_int 8)) in
+    let hobs, _ = c15_hrun g junk (c15_hclient_empty (fun _ -> Some (S O, n_of_int 24))) ops in
+    let verdict = pool_oracle ~pr:(not pa) sT aT ops toks in
+    String.concat " " toks, (if hobs = obs then verdict else "REJECT literal free-list model (c15_hrun) differs from the list model")
+
+(* ---- several allocator objects ---- *)
+let parse_mop (t : string) : c15_mop =
+  let rest = String.sub t 1 (String.length t - 1) in
+  let parts = String.split_on_char '.' rest in
+  let i k = nat_of_int (int_of_string (List.nth parts k)) in
+  match t.[0] with
+  | 'A' -> MAlloc (i 0, n_of_dec (List.nth parts 1))
+  | 'F' -> MFree (i 0, i 1)
+  | 'C' -> MCopy (i 0)
+  | 'V' -> MFreeVia (i 0, i 1, i 2)
+  | 'E' -> MEqual (i 0, i 1)
+  | _ -> failwith "mop"
+let mobs_str = function MObs o -> obs_str o | MObsEq b -> if b then "E1" else "E0"
+
+(* oracle: equality answers are object identity; release through another object is refused; the projection of the trace onto each
+   allocator object satisfies the single-allocator block predicate (c15_spec_trace) *)
+let multi_oracle sT aT (ops : c15_mop list) (toks : string list) : string =
+  match List.find_opt has_bang toks, List.find_opt is_crash toks with
+  | Some t, _ -> "REJECT harness flag " ^ t
+  | None, Some t -> "REJECT trace incomplete: " ^ t
+  | None, None ->
+    let nops = List.length ops in
+    if List.length toks <> nops + 2 then "REJECT trace incomplete" else begin
+      let body = take nops (List.tl toks) in
+      let nall = List.fold_left (fun a o -> match o with MCopy _ -> a + 1 | _ -> a) 1 ops in
+      let proj = Array.make nall ([], []) in
+      let add j op tok = let (a, b) = proj.(j) in proj.(j) <- (op :: a, parse_obs tok :: b) in
+      let bad = ref "" in
+      List.iter2 (fun op tok ->
+          match op with
+          | MAlloc (j, n) -> add (int_of_nat j) (OpAlloc n) tok
+          | MFree (j, i) -> add (int_of_nat j) (OpFree i) tok
+          | MCopy _ -> if tok <> "K" && !bad = "" then bad := "copy: " ^ tok
+          | MFreeVia (k, j, i) -> if k = j then add (int_of_nat j) (OpFree i) tok
+                                  else if tok <> "bad_alloc" && !bad = "" then bad := "release through another allocator object not refused: " ^ tok
+          | MEqual (j, k) -> if tok <> (if j = k then "E1" else "E0") && !bad = "" then bad := "operator== is not object identity: " ^ tok) ops body;
+      if !bad <> "" then "REJECT " ^ !bad else begin
+        let storage = (try let d = List.nth toks (nops + 1) in let i = String.index d ':' in n_of_dec (String.sub d 1 (i - 1)) with _ -> N0) in
+        let okall = ref true in
+        Array.iter (fun (a, b) -> if not (c15_spec_trace sT aT storage O [] (List.rev a) (List.rev b)) then okall := false) proj;
+        if not !okall then "REJECT block predicate fails for one of the allocator objects"
+        else begin
+          let nchunks = Array.fold_left (fun acc (_, b) -> acc + int_of_nat (c15_spec_nchunks (List.rev b))) 0 proj in
+          let d = List.nth toks (nops + 1) in
+          if d = Printf.sprintf "D%s:%d/%d" (dec_of_n storage) nchunks nchunks then "ok" else "REJECT destroying the allocators does not return every chunk: " ^ d
+        end
+      end
+    end
+
+let do_multi sT aT s opsl =
+  let ops = List.map parse_mop opsl in
+  match c15_pa_geometry sT aT s with
+  | None -> "NOGEOM", "ok"
+  | Some g ->
+    if not (c15_mops_ok g [c15_client_empty] ops) then "BADCASE", "BADCASE" else
+    let obs, ms = c15_mrun g [c15_client_empty] ops in
+    let nch = List.fold_left (fun a st -> a + List.length (c15_pool_destroy st.cl_pool)) 0 ms in
+    let nb = if nch = 0 then N0 else c15_chunk_bytes g in
+    let toks = [geom_tok g] @ List.map mobs_str obs @ [Printf.sprintf "D%s:%d/%d" (dec_of_n nb) nch nch] in
+    String.concat " " toks, multi_oracle sT aT ops toks
 
 (* ---- malloc / aligned ---- *)
 let sys_oracle sT ops (toks : string list) : string =
@@ -252,23 +317,27 @@ let () =
          | ("debug" | "dman" | "debugkeep"), Some l ->
            let mode = (match List.hd t with "dman" -> 1 | "debugkeep" -> 2 | _ -> 0) in
            dbg_oracle ~man:(mode = 1) (nn 1) (nn 2) (nn 3) (dbg_ops mode (drop 4 t)) (split l)
-         | "api", None -> api_line (List.nth t 1) (nn 2) ^ " | ok"
-         | "api", Some l -> if String.trim l = api_line (List.nth t 1) (nn 2) then "ok" else "REJECT allocator interface (max_size / operator== / rebind): " ^ l
+         | "api", None -> api_line (List.nth t 1) (nn 2) ^ (if List.nth t 1 = "pa" then " dbgalign=" ^ dec_of_n c15_debug_alignment else "") ^ " | ok"
+         | "api", Some l -> if String.trim l = api_line (List.nth t 1) (nn 2) ^ (if List.nth t 1 = "pa" then " dbgalign=" ^ dec_of_n c15_debug_alignment else "") then "ok" else "REJECT allocator interface (max_size / operator== / rebind): " ^ l
          | "isaligned", None ->
            let b x = if x then "1" else "0" in
            b (c15_isAligned (nn 1) (nn 2)) ^ " | " ^ (if c15_isAligned (nn 1) (nn 2) = c15_spec_isAligned (nn 1) (nn 2) then "ok" else "REJECT model differs from p mod align = 0")
          | "isaligned", Some l ->
            if String.trim l = (if c15_spec_isAligned (nn 1) (nn 2) then "1" else "0") then "ok" else "REJECT isAligned(" ^ List.nth t 1 ^ "," ^ List.nth t 2 ^ ") = " ^ l
+         | "multi", None -> let m, o = do_multi (nn 1) (nn 2) (nn 3) (drop 4 t) in m ^ " | " ^ o
+         | "multi", Some l -> if l = "NOGEOM" then "ok" else multi_oracle (nn 1) (nn 2) (List.map parse_mop (drop 4 t)) (split l)
          | "alignedbase", None ->
-           (* AlignedBase<align>::operator new / new[] (count, ptr): violatedAlignment iff !isAligned(ptr, align); ptr = 4096-aligned buffer + off;
-              mode 2: default handler = abort *)
+           (* AlignedBase<align>::operator new / new[] (count, ptr) at a 4096-aligned buffer + off; mode 0/1: recording handler (new / new[]),
+              2: default handler (abort), 3: empty handler *)
            let mode = if List.length t > 3 then int_of_string (List.nth t 3) else 0 in
-           let al = c15_isAligned (N.add (n_of_int 1048576) (nn 2)) (nn 1) in
-           let m = if al then "placed" else if mode = 2 then "ABORT(invalid_alignment)" else "violated" in
-           m ^ " | " ^ (if al = c15_spec_isAligned (nn 2) (nn 1) then "ok" else "REJECT model differs from off mod align = 0")
+           let h = (match mode with 2 -> HandlerDefault | 3 -> HandlerEmpty | _ -> HandlerUser) in
+           let str = function PlacePlaced -> "placed" | PlaceReported -> "violated" | PlaceAbort -> "ABORT(invalid_alignment)" in
+           let m = str (c15_alignedbase_new h (N.add (n_of_int 1048576) (nn 2)) (nn 1)) in
+           let exp = if c15_spec_isAligned (nn 2) (nn 1) then "placed" else (match mode with 2 -> "ABORT(invalid_alignment)" | 3 -> "placed" | _ -> "violated") in
+           m ^ " | " ^ (if m = exp then "ok" else "REJECT model differs from off mod align = 0")
          | "alignedbase", Some l ->
            let mode = if List.length t > 3 then int_of_string (List.nth t 3) else 0 in
-           let exp = if c15_spec_isAligned (nn 2) (nn 1) then "placed" else if mode = 2 then "ABORT(invalid_alignment)" else "violated" in
+           let exp = if c15_spec_isAligned (nn 2) (nn 1) then "placed" else (match mode with 2 -> "ABORT(invalid_alignment)" | 3 -> "placed" | _ -> "violated") in
            if String.trim l = exp then "ok"
            else "REJECT AlignedBase placement new at offset " ^ List.nth t 2 ^ " for alignment " ^ List.nth t 1 ^ ": " ^ l
          | _, _ -> "UNKNOWN-KIND")
